@@ -93,13 +93,77 @@ var Globals = map[string]cty.Value{
 	"us":  cty.UnknownVal(cty.Set(cty.String)),
 	"ud":  cty.DynamicVal,
 	"mul": cty.UnknownVal(cty.List(cty.String)).Mark(mark),
+	// known collections with unknown elements: one block per element is still
+	// expected, only what depends on the unknown element is unknown
+	"tu2":  cty.TupleVal([]cty.Value{str("a"), cty.UnknownVal(cty.String)}),
+	"lu2":  cty.ListVal([]cty.Value{str("a"), cty.UnknownVal(cty.String)}),
+	"mu2":  cty.MapVal(map[string]cty.Value{"k1": str("v1"), "k2": cty.UnknownVal(cty.String)}),
+	"su2":  cty.SetVal([]cty.Value{str("a"), cty.UnknownVal(cty.String)}),
+	"lou2": cty.ListVal([]cty.Value{kid("p", "c1"), cty.ObjectVal(map[string]cty.Value{"attr": cty.UnknownVal(cty.String), "kids": cty.ListVal([]cty.Value{str("c2")})})}),
+	"tdu2": cty.TupleVal([]cty.Value{str("a"), cty.DynamicVal}),
+	// ... with null elements
+	"ln2": cty.ListVal([]cty.Value{str("a"), cty.NullVal(cty.String)}),
+	"tn2": cty.TupleVal([]cty.Value{cty.NullVal(cty.DynamicPseudoType), str("b")}),
+	"mn2": cty.MapVal(map[string]cty.Value{"k1": cty.NullVal(cty.String), "k2": str("v2")}),
 	// erroneous for_each operands
 	"nl": cty.NullVal(cty.List(cty.String)),
 }
 
+// altGlobals is a second context with the same variable names and different
+// values (used to show that expansion keeps no state in the body).
+var altGlobals = func() map[string]cty.Value {
+	out := map[string]cty.Value{}
+	for k, v := range Globals {
+		out[k] = altValue(v)
+	}
+	return out
+}()
+
+func altValue(v cty.Value) cty.Value {
+	v, _ = v.Unmark()
+	ty := v.Type()
+	switch {
+	case !v.IsKnown() || v.IsNull():
+		return cty.ListVal([]cty.Value{str("nb")})
+	case ty == cty.String:
+		return str(v.AsString() + "B")
+	case ty == cty.Number:
+		return v.Add(cty.NumberIntVal(10))
+	case ty.IsListType() || ty.IsSetType() || ty.IsTupleType():
+		var es []cty.Value
+		for it := v.ElementIterator(); it.Next(); {
+			_, e := it.Element()
+			es = append([]cty.Value{altValue(e)}, es...) // reversed
+		}
+		if len(es) == 0 {
+			return cty.ListVal([]cty.Value{str("eb")})
+		}
+		return cty.TupleVal(es)
+	case ty.IsMapType():
+		m := map[string]cty.Value{}
+		for k, e := range v.AsValueMap() {
+			m[k+"b"] = altValue(e)
+		}
+		if len(m) == 0 {
+			return cty.MapVal(map[string]cty.Value{"eb": str("vb")})
+		}
+		return cty.ObjectVal(m)
+	case ty.IsObjectType():
+		m := map[string]cty.Value{}
+		for k, e := range v.AsValueMap() {
+			m[k] = altValue(e)
+		}
+		if len(m) == 0 {
+			return cty.ObjectVal(map[string]cty.Value{"eb": str("vb")})
+		}
+		return cty.ObjectVal(m)
+	}
+	return v
+}
+
 var (
-	collQuick    = []string{"l0", "l1", "l2", "t2", "s2", "m0", "m2", "o2", "lo2", "mo2", "ml2", "lm2", "ul", "um", "ud", "nl"}
-	collThorough = []string{"l0", "l1", "l2", "t0", "t2", "s0", "s1", "s2", "m0", "m1", "m2", "o0", "o2", "lo2", "mo2", "ml2", "lm2", "mm2", "ul", "um", "us", "ud", "mul", "nl", "g"}
+	collQuick    = []string{"l0", "l1", "l2", "t2", "s2", "m0", "m2", "o2", "lo2", "mo2", "ml2", "lm2", "tu2", "lu2", "mu2", "su2", "lou2", "ln2", "tn2", "ul", "um", "ud", "nl"}
+	collThorough = []string{"l0", "l1", "l2", "t0", "t2", "s0", "s1", "s2", "m0", "m1", "m2", "o0", "o2", "lo2", "mo2", "ml2", "lm2", "mm2", "tu2", "lu2", "mu2", "su2", "lou2", "tdu2", "ln2", "tn2", "mn2", "ul", "um", "us", "ud", "mul", "nl", "g"}
 	// default, custom, custom shadowing the global g, custom shadowing the
 	// global that holds the for_each collection ("=coll")
 	iters = []string{"", "it", "g", "=coll"}
@@ -162,6 +226,106 @@ func topSpec(xkind, zkind string, wrapped bool) *sg.Spec {
 		return objSpec("w", &sg.Spec{K: sg.KBlock, Name: "w", Kids: []*sg.Spec{body}})
 	}
 	return body
+}
+
+// nest3Spec: object{top, x: Kx{a, z: Kz{b, v: Kv{c}}}, y: list{a}} - two levels of nested block specs.
+func nest3Spec(xk, zk, vk string) *sg.Spec {
+	if zk == "map" && vk == "btuple" {
+		return nil // dynamic implied type inside BlockMapSpec
+	}
+	bty, cty_ := sg.TDynamic, sg.TDynamic
+	if zk == "map" {
+		bty, cty_ = sg.TString, sg.TString
+	}
+	if vk == "map" {
+		cty_ = sg.TString
+	}
+	vs := blockSpecOf(vk, "v", objSpec("c", attrSpec("c", cty_)))
+	zs := blockSpecOf(zk, "z", objSpec("b", attrSpec("b", bty), "v", vs))
+	xs := blockSpecOf(xk, "x", objSpec("a", attrSpec("a", sg.TDynamic), "z", zs))
+	return objSpec("top", attrSpec("top", sg.TString), "x", xs,
+		"y", blockSpecOf("list", "y", objSpec("a", attrSpec("a", sg.TDynamic))))
+}
+
+// nest3Body: a dynamic block x whose content holds a block z (dynamic or
+// static) whose content holds a block v (dynamic or static). o, m, i are the
+// iterator arguments of the three levels ("" = default name); the innermost
+// content refers to the key and value of every iterator name in scope.
+func nest3Body(outer, mid, inner string, o, m, i string, zDyn, vDyn bool, zk, vk string) *sg.Body {
+	type level struct {
+		name string
+		val  []string // path from the iterator to a string: value or value.attr
+	}
+	on := iterName(o, "x")
+	oval := []string{"value"}
+	if outer == "mo2" {
+		oval = []string{"value", "attr"}
+	}
+	scope := []level{{on, oval}}
+	ref := func(name string, path ...string) sg.Expr { return sg.R(append([]string{name}, path...)...) }
+	// z
+	z := sg.Block{Type: "z"}
+	zbody := &sg.Body{}
+	if zDyn {
+		mn := iterName(m, "z")
+		fe := sg.R(mid)
+		if mid == "outer-kids" {
+			fe = ref(on, "value", "kids")
+		}
+		z.Dyn = &sg.Dyn{ForEach: fe, Iterator: m}
+		if zk == "map" {
+			z.Dyn.Labels = []sg.Expr{sg.T(ref(on, "key"), sg.S("-"), ref(mn, "key"))}
+		}
+		zbody.Attrs = []sg.Attr{{Name: "b", Expr: sg.T(ref(on, "key"), sg.S("-"), ref(mn, "key"))}}
+		scope = append(scope, level{mn, []string{"value"}})
+	} else {
+		if zk == "map" {
+			z.Labels = []string{"zs"}
+		}
+		zbody.Attrs = []sg.Attr{{Name: "b", Expr: ref(on, "key")}}
+	}
+	// v
+	v := sg.Block{Type: "v"}
+	if vDyn {
+		in := iterName(i, "v")
+		fe := sg.R(inner)
+		if inner == "outer-kids" {
+			fe = ref(on, "value", "kids") // the nearest iterator called on
+		}
+		v.Dyn = &sg.Dyn{ForEach: fe, Iterator: i}
+		if vk == "map" {
+			v.Dyn.Labels = []sg.Expr{sg.T(ref(on, "key"), sg.S("-"), ref(in, "key"))}
+		}
+		scope = append(scope, level{in, []string{"value"}})
+	} else if vk == "map" {
+		v.Labels = []string{"vs"}
+	}
+	// innermost content: key and value of every distinct name, nearest binding decides the path
+	var parts []sg.Expr
+	seen := map[string]bool{}
+	for li := range scope {
+		l := scope[li]
+		if seen[l.name] {
+			continue
+		}
+		seen[l.name] = true
+		path := l.val
+		for _, l2 := range scope[li+1:] {
+			if l2.name == l.name {
+				path = l2.val
+			}
+		}
+		if len(parts) > 0 {
+			parts = append(parts, sg.S("-"))
+		}
+		parts = append(parts, ref(l.name, "key"), sg.S("."), ref(l.name, path...))
+	}
+	v.Body = &sg.Body{Attrs: []sg.Attr{{Name: "c", Expr: sg.T(parts...)}}}
+	zbody.Blocks = []sg.Block{v}
+	z.Body = zbody
+	x := sg.Block{Type: "x", Dyn: &sg.Dyn{ForEach: sg.R(outer), Iterator: o},
+		Body: &sg.Body{Attrs: []sg.Attr{{Name: "a", Expr: ref(on, "key")}}, Blocks: []sg.Block{z}}}
+	return &sg.Body{Attrs: []sg.Attr{{Name: "top", Expr: sg.R("g")}}, Blocks: []sg.Block{x}}
 }
 
 // ---------------------------------------------------------------------------
@@ -370,10 +534,10 @@ func gen(tier string, emit func(engine.Case) bool) {
 
 	// Family B - interleaving: every layout of length <= 3 x a few collections
 	layB := layouts(3, "SYD")
-	collB := []string{"l0", "l2", "m2", "s2", "ul"}
+	collB := []string{"l0", "l2", "m2", "s2", "tu2", "ul"}
 	if thorough {
 		layB = layouts(3, "SYDE")
-		collB = []string{"l0", "l1", "l2", "t2", "m2", "s2", "o2", "ml2", "ul", "ud"}
+		collB = []string{"l0", "l1", "l2", "t2", "m2", "s2", "o2", "ml2", "tu2", "mu2", "ln2", "ul", "ud"}
 	}
 	for _, lay := range layB {
 		for _, coll := range collB {
@@ -395,7 +559,7 @@ func gen(tier string, emit func(engine.Case) bool) {
 	}
 
 	// Family C - nesting
-	collC := []string{"l0", "l2", "m2", "lo2", "mo2", "ml2", "ul"}
+	collC := []string{"l0", "l2", "m2", "lo2", "mo2", "ml2", "lu2", "lou2", "ul"}
 	zkinds := map[string][]string{
 		"static": {"list", "block", "attrs"}, "dyn-global": {"list", "btuple", "set"}, "dyn-outer": {"list", "set"},
 		"dyn-shadow": {"list"}, "mixed": {"list", "btuple"}, "dyn-unknown": {"list", "block"},
@@ -440,6 +604,68 @@ func gen(tier string, emit func(engine.Case) bool) {
 			}
 		}
 	}
+}
+
+// genNest3: family D - three levels of nesting with re-used iterator names.
+func genNest3(thorough bool, out func(fam, syn string, spec *sg.Spec, body *sg.Body) bool) bool {
+	type names struct{ o, m, i string }
+	schemes := []names{
+		{"", "", ""},        // x, z, v
+		{"it", "it", ""},    // outer and middle share a name; the innermost block refers to it
+		{"it", "mid", "it"}, // outer and inner share a name, the middle one differs
+		{"it", "it", "it"},  // all three share a name
+		{"it", "", "z"},     // inner re-uses the default name of the middle one
+		{"", "x", ""},       // middle re-uses the default name of the outer one
+	}
+	xks := []string{"list", "btuple"}
+	zks := []string{"list", "btuple", "block", "map"}
+	vks := []string{"list", "btuple", "block", "map"}
+	outers := []string{"l2", "mo2"}
+	if thorough {
+		xks = []string{"list", "btuple", "set", "bobject"}
+		outers = []string{"l2", "mo2", "ml2", "lu2"}
+	}
+	for _, sc := range schemes {
+		for _, zDyn := range []bool{true, false} {
+			for _, vDyn := range []bool{true, false} {
+				for _, outer := range outers {
+					mids := []string{"m2"}
+					inners := []string{"l2", "t2", "l1"}
+					if outer == "mo2" {
+						mids = append(mids, "outer-kids")
+						inners = append(inners, "outer-kids")
+					}
+					if !zDyn {
+						mids = mids[:1]
+					}
+					if !vDyn {
+						inners = inners[:1]
+					}
+					for _, mid := range mids {
+						for _, inner := range inners {
+							for _, xk := range xks {
+								for _, zk := range zks {
+									for _, vk := range vks {
+										spec := nest3Spec(xk, zk, vk)
+										body := nest3Body(outer, mid, inner, sc.o, sc.m, sc.i, zDyn, vDyn, zk, vk)
+										if labelled(xk) {
+											body.Blocks[0].Dyn.Labels = []sg.Expr{sg.R(iterName(sc.o, "x"), "key")}
+										}
+										for _, syn := range []string{"native", "json"} {
+											if !out("nest-3level", syn, spec, body) {
+												return false
+											}
+										}
+									}
+								}
+							}
+						}
+					}
+				}
+			}
+		}
+	}
+	return true
 }
 
 func btoi(b bool) int {
@@ -553,6 +779,8 @@ func collKind(name string) string {
 		return pre + "dynamic-unknown"
 	case !v.IsKnown():
 		return pre + "unknown-" + strings.Fields(ty.FriendlyName())[0]
+	case !v.IsWhollyKnown():
+		return pre + "partly-unknown-" + strings.Fields(ty.FriendlyName())[0]
 	case ty.IsListType():
 		return pre + "list"
 	case ty.IsTupleType():
@@ -790,6 +1018,54 @@ func judge(c engine.Case) engine.Outcome {
 		}
 	}
 
+	// robustness: (a) the same expanded body decoded twice, (b) the same parsed
+	// body expanded and decoded again after an expansion with other variable
+	// values (fresh contexts, same body and spec objects) give impl's result again
+	{
+		var first, second, other, third result
+		p, msg, st := guard(func() {
+			ctxA := &hcl.EvalContext{Variables: Globals}
+			eb := dynblock.Expand(body, ctxA)
+			v, dg := hcldec.Decode(eb, spec, ctxA)
+			first = result{val: v, err: dg.HasErrors()}
+			v, dg = hcldec.Decode(eb, spec, &hcl.EvalContext{Variables: Globals})
+			second = result{val: v, err: dg.HasErrors()}
+		})
+		if p {
+			return engine.Fail("c18.repeat.panic."+sh.String(), "expanding / decoding the same body a second time panics: %s\n%s\n%s", msg, trimStack(st), desc())
+		}
+		if pb, _, _ := guard(func() {
+			ctxB := &hcl.EvalContext{Variables: altGlobals}
+			v, dg := hcldec.Decode(dynblock.Expand(body, ctxB), spec, ctxB)
+			other = result{val: v, err: dg.HasErrors()}
+		}); pb {
+			counters.Add("alternative_context_panics", 1)
+		}
+		p, msg, st = guard(func() {
+			ctxA := &hcl.EvalContext{Variables: Globals}
+			v, dg := hcldec.Decode(dynblock.Expand(body, ctxA), spec, ctxA)
+			third = result{val: v, err: dg.HasErrors()}
+		})
+		if p {
+			return engine.Fail("c18.repeat.panic."+sh.String(), "expanding / decoding the same body again after an expansion with other variables panics: %s\n%s\n%s", msg, trimStack(st), desc())
+		}
+		same := func(a, b result) bool { return a.err == b.err && a.val.RawEquals(b.val) }
+		if !same(impl, first) {
+			return engine.Fail("c18.repeat.second-expansion-differs."+sh.String(),
+				"the same parsed body expanded and decoded twice with equal contexts:\nfirst:  error=%v %s\nsecond: error=%v %s\n%s", impl.err, vfmt.V(impl.val), first.err, vfmt.V(first.val), desc())
+		}
+		if !same(first, second) {
+			return engine.Fail("c18.repeat.second-decode-of-expanded-body-differs."+sh.String(),
+				"one expanded body decoded twice:\nfirst:  error=%v %s\nsecond: error=%v %s\n%s", first.err, vfmt.V(first.val), second.err, vfmt.V(second.val), desc())
+		}
+		if !same(impl, third) {
+			return engine.Fail("c18.repeat.result-depends-on-earlier-expansion."+sh.String(),
+				"expansion with context A, then with context B (other values), then with A again:\nA first: error=%v %s\nB:       error=%v %s\nA again: error=%v %s\n%s",
+				impl.err, vfmt.V(impl.val), other.err, vfmt.V(other.val), third.err, vfmt.V(third.val), desc())
+		}
+		counters.Add("repeat_runs", 1)
+	}
+
 	// the variables reported for expansion suffice to perform it
 	// (the flow of the README: expand with the variables ExpandVariablesHCLDec
 	// reports, then decode with the variables hcldec.Variables reports for the
@@ -841,10 +1117,11 @@ func main() {
 		Title:     "Dynamic blocks expand to exactly the blocks they describe",
 		Technique: "bounded exhaustive enumeration of abstract bodies with dynamic blocks x hcldec specs x syntaxes; real dynblock.Expand + hcldec.Decode against the decoding of a reference write-out (one static block per element, iterator renamed to a fresh variable)",
 		Rule: "three product families over blocks x (dynamic, principal), static x / static y / second dynamic x / dynamic y, nested z; specs object{top, x: K{a [,z: Kz{b}]}, y: list} with K in BlockList/Set/Tuple/Block/Attrs/Map/Object/List+BlockLabelSpec: " +
-			"(iter) for_each in 16 (quick) / 25 (thorough) collections (list, tuple, set, map, object of size 0-2, collections of objects, marked, marked element, unknown list/map/set, DynamicVal, null, non-iterable) x iterator {default, custom, custom shadowing global g, custom shadowing the for_each variable} x 7 content forms (const, it.key, it.value, it.value.attr, template of it.key and a global, global, the shadowed name) x K x 4 label forms (labelled K) x every layout of length <= 2 with one principal block over {S,Y,D} (thorough +E) x {native, JSON}; " +
+			"(iter) for_each in 23 (quick) / 34 (thorough) collections (list, tuple, set, map, object of size 0-2, collections of objects, marked, marked element, known collections with an unknown element (tuple, list, map, set, list of objects with an unknown attribute) or a null element, unknown list/map/set, DynamicVal, null, non-iterable) x iterator {default, custom, custom shadowing global g, custom shadowing the for_each variable} x 7 content forms (const, it.key, it.value, it.value.attr, template of it.key and a global, global, the shadowed name) x K x 4 label forms (labelled K) x every layout of length <= 2 with one principal block over {S,Y,D} (thorough +E) x {native, JSON}; " +
 			"(interleave) every layout of length <= 3 with one principal block over {S,Y,D} (thorough +E) x 5 (10) collections x {default, shadowing} x 2 content forms x K x label forms; " +
 			"(nest) 6 nestings (static z using the outer iterator, dynamic z over a global using both iterators, dynamic z over it.value.kids, dynamic z re-using the outer iterator name, static/dynamic/static z, dynamic z over an unknown) x Kz x 3 layouts x 7 collections x 4 iterators x 2 content forms x 6 K x {top level, inside a static block w} x syntaxes. " +
-			"distinct = distinct (shape, decoded value)",
+			"(nest-3level) dynamic x > z > v (z, v each dynamic or static) with 6 iterator-name schemes (all default; outer=middle; outer=inner with another middle; all equal; inner = default name of middle; middle = default name of outer), innermost content using key and value of every name in scope, for_each of z / v from a global or from the nearest iterator, Kx in {list,tuple} x Kz, Kv in {list,tuple,block,map with labels from outer and own iterator} x syntaxes. " +
+			"Every case additionally: same expanded body decoded twice; expansion with context A, B (other values), A again. distinct = distinct (shape, decoded value)",
 		Assumptions: []string{
 			"hclsyntax / json parsing, expression evaluation and go-cty are trusted; hcldec decoding of a static body is the subject of C08 and used on both sides",
 			"iteration order and keys are those of go-cty (lists/tuples by index, maps/objects by sorted key, sets in go-cty's set order with key = value)",
